@@ -8,7 +8,7 @@ R5  atom::new_eq and atom::equates traverse the same, complete set of fields.
 R6  polarity-aware activation dispatch in solver::propagate.
 """
 from ..expr import LocalEnv, canon, show
-from ..facts import AnalysisBroken, kids, short, src, walk
+from ..facts import AnalysisBroken, kids, short, src, walk, walk_nolambda
 from ..schema import posted, show_clause
 from ..tables import VecBuilder, arm_of, enum_paths, fmt_items, switch_arms
 from .. import cfg
@@ -233,6 +233,34 @@ def _sub(t):
             yield from _sub(x)
 
 
+def apply_rule_shape(ctx, rid, fs):
+    """predicate::apply_rule: the rule of every super-predicate, then every statement of the own rule - unconditionally (shared by C03.R3 and C06.R2)."""
+    f = fs.fn('ratio::predicate::apply_rule')
+    env = LocalEnv(f)
+    env.param_roles(['a'])
+    loops = [n for n in f.nodes() if n.get('k') == 'CXXForRangeStmt']
+    sup = [n for n in loops if canon(n['slots']['range'], env, subst=False) == 'ratio::type::supertypes']
+    sts = [n for n in loops if canon(n['slots']['range'], env, subst=False) == 'ratio::predicate::statements']
+    ok_sup = len(sup) == 1 and any(m.get('callee_name') == 'ratio::predicate::apply_rule' for m in walk(sup[0]['slots']['body'])) and not any(m.get('k') in ('IfStmt', 'BreakStmt', 'ContinueStmt') for m in walk(sup[0]['slots']['body']))
+    ok_sts = len(sts) == 1 and any((m.get('callee_name') or '').endswith('statement::execute') for m in walk(sts[0]['slots']['body'])) and not any(m.get('k') in ('IfStmt', 'BreakStmt', 'ContinueStmt') for m in walk(sts[0]['slots']['body']))
+    order = ok_sup and ok_sts and _pos(sup[0]) < _pos(sts[0])
+    ctx.instance(rid, [f.id, 'inheritance'], {'super_rules_applied': ok_sup, 'all_statements_executed': ok_sts, 'super_first': order})
+    if not (ok_sup and ok_sts and order):
+        ctx.finding(rid, f.id, 'inheritance', 'predicate::apply_rule must apply the rule of every super-predicate first and then execute every statement of its own rule', loc=f.loc)
+    this_ok = any(canon(n, env, subst=False)[1].endswith('::emplace') and canon(n, env, subst=False)[3] == ('str', 'this') and canon(n, env, subst=False)[4] == 'a' for n in f.nodes()
+                  if n.get('k') == 'CXXMemberCallExpr' and isinstance(canon(n, env, subst=False), tuple) and len(canon(n, env, subst=False)) == 5)
+    if not this_ok:
+        ctx.finding(rid, f.id, 'this', 'predicate::apply_rule must bind `this` to the atom the rule is applied to', loc=f.loc)
+    # no way round the two loops: they are statements of the function body itself and nothing leaves the function early
+    top = list(kids(f.body))
+    early = [n for n in walk_nolambda(f.body) if n.get('k') in ('ReturnStmt', 'GotoStmt', 'CXXThrowExpr')]
+    uncond = bool(sup) and bool(sts) and any(x is sup[0] for x in top) and any(x is sts[0] for x in top) and not early
+    ctx.instance(rid, [f.id, 'unconditional'], {'loops_are_top_level_statements': uncond, 'early_exits': [short(n.get('loc')) for n in early]})
+    if not uncond:
+        ctx.finding(rid, f.id, 'unconditional', 'predicate::apply_rule can skip the rules of the super-predicates or its own statements (an early exit or a guard around the loops): a predicate that inherits '
+                    'Interval / Impulse (or any user rule) would then be activated without the inherited constraints', node=(early[0] if early else f.body))
+
+
 def r3(ctx, fs):
     rid = 'C03.R3'
     ctx.rule(rid, 'activate_fact/goal::apply post {!rho, sigma}; activate_goal additionally applies the rule of the predicate; predicate::apply_rule applies every super-rule first and '
@@ -254,22 +282,7 @@ def r3(ctx, fs):
             okp = g.must_pass(g.events(lambda t: t.get('callee_name') == 'ratio::predicate::apply_rule'))
             if not okp:
                 ctx.finding(rid, f.id, 'rule/path', 'activate_goal::apply can return normally without applying the rule', loc=f.loc)
-    f = fs.fn('ratio::predicate::apply_rule')
-    env = LocalEnv(f)
-    env.param_roles(['a'])
-    loops = [n for n in f.nodes() if n.get('k') == 'CXXForRangeStmt']
-    sup = [n for n in loops if canon(n['slots']['range'], env, subst=False) == 'ratio::type::supertypes']
-    sts = [n for n in loops if canon(n['slots']['range'], env, subst=False) == 'ratio::predicate::statements']
-    ok_sup = len(sup) == 1 and any(m.get('callee_name') == 'ratio::predicate::apply_rule' for m in walk(sup[0]['slots']['body'])) and not any(m.get('k') in ('IfStmt', 'BreakStmt', 'ContinueStmt') for m in walk(sup[0]['slots']['body']))
-    ok_sts = len(sts) == 1 and any((m.get('callee_name') or '').endswith('statement::execute') for m in walk(sts[0]['slots']['body'])) and not any(m.get('k') in ('IfStmt', 'BreakStmt', 'ContinueStmt') for m in walk(sts[0]['slots']['body']))
-    order = ok_sup and ok_sts and _pos(sup[0]) < _pos(sts[0])
-    ctx.instance(rid, [f.id, 'inheritance'], {'super_rules_applied': ok_sup, 'all_statements_executed': ok_sts, 'super_first': order})
-    if not (ok_sup and ok_sts and order):
-        ctx.finding(rid, f.id, 'inheritance', 'predicate::apply_rule must apply the rule of every super-predicate first and then execute every statement of its own rule', loc=f.loc)
-    this_ok = any(canon(n, env, subst=False)[1].endswith('::emplace') and canon(n, env, subst=False)[3] == ('str', 'this') and canon(n, env, subst=False)[4] == 'a' for n in f.nodes()
-                  if n.get('k') == 'CXXMemberCallExpr' and isinstance(canon(n, env, subst=False), tuple) and len(canon(n, env, subst=False)) == 5)
-    if not this_ok:
-        ctx.finding(rid, f.id, 'this', 'predicate::apply_rule must bind `this` to the atom the rule is applied to', loc=f.loc)
+    apply_rule_shape(ctx, rid, fs)
     # apply_resolver bracketing
     f = fs.fn('ratio::solver::apply_resolver')
     env = LocalEnv(f, fs)
